@@ -16,6 +16,7 @@ package jobctl
 
 import (
 	"fmt"
+	"reflect"
 	"sort"
 	"strconv"
 	"strings"
@@ -48,9 +49,16 @@ var (
 
 const (
 	JobName   = "j"
-	JobUID    = "u1"
 	QueueName = "q1"
 )
+
+// JobUID is the uid of the job's current incarnation (a job deleted and
+// re-created under the same name gets a new one; the PodGroup name follows).
+var JobUID = "u1"
+var jobGen = 1
+
+func resetJobUID() { jobGen = 1; JobUID = "u1" }
+func nextJobUID()  { jobGen++; JobUID = fmt.Sprintf("u%d", jobGen) }
 
 // Call is one write the controller issued in the current step.
 type Call struct {
@@ -71,7 +79,20 @@ type Env struct {
 	Calls                             []Call
 	// objects the controller handed to Create (pods), for marker checks
 	Created []*v1.Pod
+	// PodGroup write faults of the current step: 0 none, 1 Conflict, 2 InternalError
+	FailPgCreate, FailPgUpdate int
+
+	rv int
+	// what the informers have delivered to the controller so far (per case)
+	dJob         *batch.Job
+	prevJob      *batch.Job // the version delivered before dJob
+	dPods        map[string]*v1.Pod
+	dPG          *scheduling.PodGroup
+	jobDelivered bool
+	lastCache    Status
 }
+
+func (e *Env) nextRV() string { e.rv++; return strconv.Itoa(e.rv + 1000) }
 
 var theEnv *Env
 
@@ -87,11 +108,6 @@ func Get() *Env {
 		panic(err)
 	}
 	e.Ctl = ctl
-	// the queue every job uses
-	q := &scheduling.Queue{ObjectMeta: metav1.ObjectMeta{Name: QueueName}}
-	if err := ctl.VerifQueueIndexer().Add(q); err != nil {
-		panic(err)
-	}
 	for k := int64(1); k <= 4; k++ {
 		if err := ctl.VerifPriorityClassIndexer().Add(NewPriorityClass(fmt.Sprintf("pc%d", k), int32(k*10))); err != nil {
 			panic(err)
@@ -172,36 +188,75 @@ func (e *Env) installReactors() {
 		}
 		stored := obj.(*batch.Job).DeepCopy()
 		stored.Status = *j.Status.DeepCopy()
+		stored.ResourceVersion = e.nextRV()
 		if err := e.VC.Tracker().Update(JobGVR, stored, j.Namespace); err != nil {
 			panic(err)
 		}
 		return true, stored.DeepCopy(), nil
 	})
-	for _, verb := range []string{"create", "update", "delete"} {
-		verb := verb
-		e.VC.PrependReactor(verb, "podgroups", func(a k8stesting.Action) (bool, runtime.Object, error) {
-			name := ""
-			switch x := a.(type) {
-			case k8stesting.DeleteAction:
-				name = x.GetName()
-			case k8stesting.CreateAction: // also UpdateAction
-				name = x.GetObject().(*scheduling.PodGroup).Name
-			}
-			e.Calls = append(e.Calls, Call{verb, "podgroups", "", name, false})
-			return false, nil, nil
-		})
+	pgErr := func(kind int, name string) error {
+		if kind == 1 {
+			return apierrors.NewConflict(schema.GroupResource{Group: "scheduling.volcano.sh", Resource: "podgroups"}, name,
+				fmt.Errorf("injected fault: the object has been modified"))
+		}
+		return injected("podgroup write " + name)
 	}
+	e.VC.PrependReactor("create", "podgroups", func(a k8stesting.Action) (bool, runtime.Object, error) {
+		pg := a.(k8stesting.CreateAction).GetObject().(*scheduling.PodGroup)
+		if e.FailPgCreate != 0 {
+			e.Calls = append(e.Calls, Call{"create", "podgroups", "", pg.Name, true})
+			return true, nil, pgErr(e.FailPgCreate, pg.Name)
+		}
+		e.Calls = append(e.Calls, Call{"create", "podgroups", "", pg.Name, false})
+		return false, nil, nil
+	})
+	e.VC.PrependReactor("update", "podgroups", func(a k8stesting.Action) (bool, runtime.Object, error) {
+		pg := a.(k8stesting.UpdateAction).GetObject().(*scheduling.PodGroup)
+		if e.FailPgUpdate != 0 {
+			e.Calls = append(e.Calls, Call{"update", "podgroups", "", pg.Name, true})
+			return true, nil, pgErr(e.FailPgUpdate, pg.Name)
+		}
+		// an update of the main resource does not touch .status
+		obj, err := e.VC.Tracker().Get(PGGVR, pg.Namespace, pg.Name)
+		if err != nil {
+			e.Calls = append(e.Calls, Call{"update", "podgroups", "", pg.Name, true})
+			return true, nil, err
+		}
+		e.Calls = append(e.Calls, Call{"update", "podgroups", "", pg.Name, false})
+		n := pg.DeepCopy()
+		n.Status = obj.(*scheduling.PodGroup).Status
+		if err := e.VC.Tracker().Update(PGGVR, n, pg.Namespace); err != nil {
+			panic(err)
+		}
+		return true, n.DeepCopy(), nil
+	})
+	e.VC.PrependReactor("delete", "podgroups", func(a k8stesting.Action) (bool, runtime.Object, error) {
+		e.Calls = append(e.Calls, Call{"delete", "podgroups", "", a.(k8stesting.DeleteAction).GetName(), false})
+		return false, nil, nil
+	})
 }
 
 // BeginStep resets the fault plan and the call log.
 func (e *Env) BeginStep() {
 	e.FailCreate, e.FailDelete, e.FailPatch = map[string]bool{}, map[string]bool{}, map[string]bool{}
 	e.FailStatus = map[int]bool{}
+	e.FailPgCreate, e.FailPgUpdate = 0, 0
 	e.statusCalls = 0
 	e.Calls = nil
 	e.Created = nil
 	e.Kube.ClearActions()
 	e.VC.ClearActions()
+}
+
+// FailedCalls counts refused calls on a resource in this step.
+func (e *Env) FailedCalls(res string) int {
+	n := 0
+	for _, c := range e.Calls {
+		if c.Resource == res && c.Failed {
+			n++
+		}
+	}
+	return n
 }
 
 func (e *Env) CountCalls(verb, res, sub string, okOnly bool) int {
@@ -256,7 +311,7 @@ func PGName() string { return JobName + "-" + JobUID }
 func NewJob(ns string) *batch.Job {
 	return &batch.Job{
 		TypeMeta:   metav1.TypeMeta{APIVersion: "batch.volcano.sh/v1alpha1", Kind: "Job"},
-		ObjectMeta: metav1.ObjectMeta{Name: JobName, Namespace: ns, UID: types.UID(JobUID), ResourceVersion: "1"},
+		ObjectMeta: metav1.ObjectMeta{Name: JobName, Namespace: ns, UID: types.UID(JobUID), ResourceVersion: "1000"},
 		Spec:       batch.JobSpec{Queue: QueueName, SchedulerName: "volcano"},
 	}
 }
@@ -330,6 +385,7 @@ func (e *Env) APIJob(ns string) *batch.Job {
 func (e *Env) APISetJobSpec(ns string, spec batch.JobSpec) {
 	j := e.APIJob(ns).DeepCopy()
 	j.Spec = spec
+	j.ResourceVersion = e.nextRV()
 	must(e.VC.Tracker().Update(JobGVR, j, ns))
 }
 
@@ -384,63 +440,96 @@ func (e *Env) APIUpdatePodGroup(pg *scheduling.PodGroup) {
 	must(e.VC.Tracker().Update(PGGVR, pg, pg.Namespace))
 }
 
-// ---------- controller side (listers, job cache): explicit informer syncs ----------
+// ---------- controller side: explicit informer deliveries through the REAL handlers ----------
+// (addJob / updateJob / deleteJob, addPod / updatePod / deletePod, updatePodGroup of
+// job_controller_handler.go, which feed pkg/controllers/cache; the listers read the
+// indexers the harness fills at the same moment).  The requests the handlers enqueue are
+// dropped: histories deliver requests explicitly.
 
 func jobKey(ns string) string { return ns + "/" + JobName }
 
-// SyncJob copies the API server's job into the job lister and the job cache.
+// SyncJob delivers the API server's job: add on first delivery (after a restart / re-creation),
+// update afterwards (the handler itself ignores an unchanged resourceVersion).
 func (e *Env) SyncJob(ns string) {
 	j := e.APIJob(ns).DeepCopy()
 	ix := e.Ctl.VerifJobIndexer()
-	if _, ok, _ := ix.GetByKey(ns + "/" + JobName); ok {
-		must(ix.Update(j))
-		must(e.Ctl.VerifCache().Update(j))
+	if !e.jobDelivered {
+		if _, ok, _ := ix.GetByKey(jobKey(ns)); ok {
+			must(ix.Update(j))
+		} else {
+			must(ix.Add(j))
+		}
+		e.Ctl.VerifAddJob(j)
+		e.jobDelivered = true
 	} else {
-		must(ix.Add(j))
-		must(e.Ctl.VerifCache().Add(j))
+		must(ix.Update(j))
+		e.Ctl.VerifUpdateJob(e.dJob, j)
+		if e.dJob.ResourceVersion != j.ResourceVersion {
+			e.prevJob = e.dJob
+		}
+	}
+	e.dJob = j
+	e.Ctl.VerifDrainRequests()
+}
+
+// StaleJob delivers an update event that carries an OLDER version of the job than the one the
+// controller already has (events arriving out of order): the job cache must refuse it.
+func (e *Env) StaleJob(ns string) {
+	if e.jobDelivered && e.prevJob != nil && e.dJob != nil {
+		e.Ctl.VerifUpdateJob(e.dJob, e.prevJob.DeepCopy())
+		e.Ctl.VerifDrainRequests()
 	}
 }
 
-// SyncPods makes the pod lister and the cache's pods equal to the API server's.
+func samePodContent(a, b *v1.Pod) bool {
+	_, ao := a.Annotations["volcano.sh/controller-out-of-sync"]
+	_, bo := b.Annotations["volcano.sh/controller-out-of-sync"]
+	return a.Status.Phase == b.Status.Phase && (a.DeletionTimestamp == nil) == (b.DeletionTimestamp == nil) && ao == bo
+}
+
+// SyncPods delivers pod add / update / delete events for everything that changed on the API
+// server since the last delivery.
 func (e *Env) SyncPods(ns string) {
 	api := map[string]*v1.Pod{}
+	var names []string
 	for _, p := range e.APIPods(ns) {
 		api[p.Name] = p.DeepCopy()
-	}
-	c := e.Ctl.VerifCache()
-	if ji, err := c.Get(jobKey(ns)); err == nil {
-		for _, pods := range ji.Pods {
-			for name, p := range pods {
-				if _, ok := api[name]; !ok {
-					must(c.DeletePod(p))
-				}
-			}
-		}
+		names = append(names, p.Name)
 	}
 	ix := e.Ctl.VerifPodIndexer()
-	for _, key := range ix.ListKeys() {
-		if strings.HasPrefix(key, ns+"/") {
-			if _, ok := api[strings.TrimPrefix(key, ns+"/")]; !ok {
-				obj, _, _ := ix.GetByKey(key)
-				must(ix.Delete(obj))
-			}
+	var gone []string
+	for name := range e.dPods {
+		if _, ok := api[name]; !ok {
+			gone = append(gone, name)
 		}
 	}
-	for _, p := range api {
-		if c.HasPod(p) {
-			must(c.UpdatePod(p))
-		} else {
-			must(c.AddPod(p))
-		}
-		if _, ok, _ := ix.GetByKey(ns + "/" + p.Name); ok {
-			must(ix.Update(p))
-		} else {
+	sort.Strings(gone)
+	for _, name := range gone {
+		old := e.dPods[name]
+		must(ix.Delete(old))
+		e.Ctl.VerifDeletePod(old)
+		delete(e.dPods, name)
+	}
+	for _, name := range names {
+		p := api[name]
+		old := e.dPods[name]
+		switch {
+		case old == nil:
+			p.ResourceVersion = e.nextRV()
 			must(ix.Add(p))
+			e.Ctl.VerifAddPod(p)
+			e.dPods[name] = p
+		case !samePodContent(old, p):
+			p.ResourceVersion = e.nextRV()
+			must(ix.Update(p))
+			e.Ctl.VerifUpdatePod(old, p)
+			e.dPods[name] = p
 		}
 	}
+	e.Ctl.VerifDrainRequests()
 }
 
-// SyncPodGroup makes the PodGroup lister equal to the API server's.
+// SyncPodGroup makes the PodGroup lister equal to the API server's and delivers the update event.
 func (e *Env) SyncPodGroup(ns string) {
 	ix := e.Ctl.VerifPodGroupIndexer()
 	key := ns + "/" + PGName()
@@ -449,17 +538,109 @@ func (e *Env) SyncPodGroup(ns string) {
 	switch {
 	case pg == nil && ok:
 		must(ix.Delete(old))
+		e.dPG = nil
 	case pg != nil && ok:
-		must(ix.Update(pg.DeepCopy()))
+		n := pg.DeepCopy()
+		must(ix.Update(n))
+		e.Ctl.VerifUpdatePodGroup(old.(*scheduling.PodGroup), n)
+		e.dPG = n
 	case pg != nil:
-		must(ix.Add(pg.DeepCopy()))
+		n := pg.DeepCopy()
+		must(ix.Add(n))
+		e.dPG = n
+	default:
+		e.dPG = nil
 	}
+	e.Ctl.VerifDrainRequests()
+}
+
+func (e *Env) dropIndexers(ns string) {
+	for _, ix := range []interface {
+		ListKeys() []string
+		GetByKey(string) (interface{}, bool, error)
+		Delete(interface{}) error
+	}{e.Ctl.VerifPodIndexer(), e.Ctl.VerifPodGroupIndexer(), e.Ctl.VerifJobIndexer()} {
+		for _, key := range ix.ListKeys() {
+			if strings.HasPrefix(key, ns+"/") {
+				obj, _, _ := ix.GetByKey(key)
+				_ = ix.Delete(obj)
+			}
+		}
+	}
+}
+
+// Restart: the controller process restarts -- empty job cache, empty listers; nothing delivered yet.
+func (e *Env) Restart(ns string) {
+	e.Ctl.VerifResetCache()
+	e.dropIndexers(ns)
+	e.dJob, e.dPG, e.jobDelivered, e.prevJob = nil, nil, false, nil
+	e.dPods = map[string]*v1.Pod{}
+}
+
+// ReplaceJob: the job is deleted (the delete event is delivered) and re-created under the same
+// name with a new uid and no status; its old pods are still around.
+func (e *Env) ReplaceJob(ns string, spec batch.JobSpec) {
+	if e.jobDelivered {
+		if obj, ok, _ := e.Ctl.VerifJobIndexer().GetByKey(jobKey(ns)); ok {
+			must(e.Ctl.VerifJobIndexer().Delete(obj))
+		}
+		e.Ctl.VerifDeleteJob(e.dJob)
+	}
+	e.dJob, e.dPG, e.jobDelivered, e.prevJob = nil, nil, false, nil
+	must(e.VC.Tracker().Delete(JobGVR, ns, JobName))
+	nextJobUID()
+	j := NewJob(ns)
+	j.ResourceVersion = e.nextRV()
+	j.Spec = spec
+	must(e.VC.Tracker().Add(j))
+	e.Ctl.VerifDrainRequests()
+}
+
+// JobDeleting gives the API server's job a deletion timestamp.
+func (e *Env) JobDeleting(ns string) {
+	j := e.APIJob(ns).DeepCopy()
+	if j.DeletionTimestamp == nil {
+		now := metav1.Now()
+		j.DeletionTimestamp = &now
+	}
+	j.ResourceVersion = e.nextRV()
+	must(e.VC.Tracker().Update(JobGVR, j, ns))
+}
+
+// what the harness has delivered, compared with the API server (independent of what the
+// controller's cache made of it)
+func (e *Env) PodsDelivered(ns string) bool {
+	api := e.APIPods(ns)
+	if len(api) != len(e.dPods) {
+		return false
+	}
+	for _, p := range api {
+		d := e.dPods[p.Name]
+		if d == nil || !samePodContent(d, p) {
+			return false
+		}
+	}
+	return true
+}
+func (e *Env) JobKnown() bool        { return e.jobDelivered }
+func (e *Env) JobViewDeleting() bool { return e.dJob != nil && e.dJob.DeletionTimestamp != nil }
+func (e *Env) JobViewFresh(ns string) bool {
+	return e.dJob != nil && e.dJob.ResourceVersion == e.APIJob(ns).ResourceVersion
+}
+func (e *Env) PgViewFresh(ns string) bool {
+	api := e.APIPodGroup(ns)
+	if api == nil || e.dPG == nil {
+		return api == nil && e.dPG == nil
+	}
+	return api.Status.Phase == e.dPG.Status.Phase && reflect.DeepEqual(api.Spec, e.dPG.Spec)
 }
 
 // ViewPods is the controller's view of the job's pods (job cache), sorted.
 func (e *Env) ViewPods(ns string) []*v1.Pod {
 	ji, err := e.Ctl.VerifCache().Get(jobKey(ns))
-	must(err)
+	if err != nil {
+		return nil
+	}
 	var out []*v1.Pod
 	for _, pods := range ji.Pods {
 		for _, p := range pods {
@@ -473,7 +654,9 @@ func (e *Env) ViewPods(ns string) []*v1.Pod {
 // CacheJob is the job object in the controller's cache (shared pointer!).
 func (e *Env) CacheJob(ns string) *batch.Job {
 	ji, err := e.Ctl.VerifCache().Get(jobKey(ns))
-	must(err)
+	if err != nil {
+		return nil
+	}
 	return ji.Job
 }
 
@@ -490,32 +673,15 @@ func (e *Env) Cleanup(ns string) {
 	for _, p := range e.APIPods(ns) {
 		must(e.Kube.Tracker().Delete(PodGVR, ns, p.Name))
 	}
-	if e.APIPodGroup(ns) != nil {
-		must(e.VC.Tracker().Delete(PGGVR, ns, PGName()))
+	for g := 1; g <= jobGen; g++ {
+		_ = e.VC.Tracker().Delete(PGGVR, ns, fmt.Sprintf("%s-u%d", JobName, g))
 	}
 	_ = e.VC.Tracker().Delete(JobGVR, ns, JobName)
-	for _, ix := range []interface {
-		ListKeys() []string
-		GetByKey(string) (interface{}, bool, error)
-		Delete(interface{}) error
-	}{e.Ctl.VerifPodIndexer(), e.Ctl.VerifPodGroupIndexer(), e.Ctl.VerifJobIndexer()} {
-		for _, key := range ix.ListKeys() {
-			if strings.HasPrefix(key, ns+"/") {
-				obj, _, _ := ix.GetByKey(key)
-				_ = ix.Delete(obj)
-			}
-		}
-	}
-	// the job cache keeps a tombstone per case (no cleanup worker runs); drop pods
-	c := e.Ctl.VerifCache()
-	if ji, err := c.Get(jobKey(ns)); err == nil {
-		for _, pods := range ji.Pods {
-			for _, p := range pods {
-				_ = c.DeletePod(p)
-			}
-		}
-		_ = c.Delete(ji.Job)
-	}
+	e.dropIndexers(ns)
+	e.Ctl.VerifResetCache()
+	e.dJob, e.dPG, e.jobDelivered, e.prevJob = nil, nil, false, nil
+	e.dPods = map[string]*v1.Pod{}
+	resetJobUID()
 }
 
 // ProcessReq delivers a request through processNextReq; true = the action failed (re-queued).
